@@ -179,12 +179,11 @@ def run(ctx):
     sn = cm.body_or_fail(ctx, p, "C04-R2", "model::voice::tree::Tree::search_node")
     if sn is not None:
         eb = ExprBuilder(sn)
-        names = {d.get("name"): l for l, d in enumerate(sn.locals) if d.get("name")}
-        nl = names.get("node_index")
         found = {"yes": None, "no": None}
-        # the value assigned to node_index comes from a temp defined on both edges of `test`
-        for d in sn.defs().get(nl, []):
-            if d[1] == "term" or sn.is_cleanup(d[0]):
+        # the cursor variable (whatever its name) is assigned from a temp defined on both edges of `test`
+        all_defs = [d for l in sn.defs() for d in sn.defs().get(l, [])]
+        for d in all_defs:
+            if d[1] == "term" or sn.is_cleanup(d[0]) or d[2]["rv"].get("k") != "use":
                 continue
             src = d[2]["rv"].get("op", {})
             if src.get("k") in ("move", "copy"):
